@@ -427,7 +427,7 @@ def split_scenarios(tier="quick"):
         proto = PROTOS[key]
         rp = PcwReplay(_pcw_op_factory(proto, packet_points=1), _pcw_extra_factory(proto, k), _pcw_patch_factory(proto), extra_files={"pc_writer.rs": PCW_CAP_HELPER})
         out.append(Scenario("PointCloudWriter new; %d x add_point; finalize with 1 point per packet — prototype %s: streams cut across packets" % (k, key),
-                            pcw_scenario(proto, k, packet_points=1), pcw_claims, max_paths=3000, time_budget=1500, replayer=rp))
+                            pcw_scenario(proto, k, packet_points=1), pcw_claims, max_paths=3000, time_budget=7200, replayer=rp))
     return out
 
 
